@@ -66,6 +66,7 @@ def hnameOp : List String → String
     match ofHex n with
     | some n =>
       if res == "PANIC" then propfail "panic"
+      else if res.startsWith "ctor-differs" then propfail s!"constructors-of-HeaderName-disagree-on-the-same-string:{res}"
       else if res == "notutf8" then "ok"
       else if res == "ok" && !ftextName n then propfail "header-name-with-control-space-or-colon-accepted"
       else if (res == "ok") == nameOk strictNames n then "ok" else s!"MISMATCH hname model={nameOk strictNames n}"
